@@ -398,6 +398,55 @@ def dag_scripts(rng, tabs):
     return out
 
 
+def pg_path_scripts(rng, tabs):
+    """translation paths only the PostgreSQL dialect takes:
+    (a) native RIGHT / FULL JOIN with rows on the right that have no match on the left (and the converse), same-named keys;
+    (b) CTE elimination: a join / concat whose two branches apply TEXTUALLY IDENTICAL extends to DIFFERENT inputs (two tables, or one
+        table after two different filters) -- the branches must not share one common table expression"""
+    t1, t2 = tabs[0], tabs[1]
+    T1, T2 = {"op": "table", "name": t1["name"]}, {"op": "table", "name": t2["name"]}
+    a1 = rng.choice(_numcols(t1, uid=False) or ["uid"])
+    b2 = rng.choice(_numcols(t2, uid=False) or ["uid"])
+    k0 = _cols(t1)[0]
+    out = []
+    # (a)
+    left = {"op": "rename_columns", "src": {"op": "select_columns", "src": {"op": "select_rows", "src": T1, "expr": "uid >= 1"}, "columns": ["uid", a1] if a1 != "uid" else ["uid"]},
+            "map": {"lv": a1}} if a1 != "uid" else {"op": "select_columns", "src": {"op": "select_rows", "src": T1, "expr": "uid >= 1"}, "columns": ["uid"]}
+    right = {"op": "extend", "src": {"op": "select_columns", "src": {"op": "select_rows", "src": T2, "expr": "uid <= 3"}, "columns": ["uid"]}, "ops": {"rv": "uid * 2"}}
+    for jt in ("RIGHT", "FULL"):
+        j = {"op": "natural_join", "src": left, "b": right, "on": ["uid"], "jointype": jt}
+        out.append(j)
+        out.append({"op": "project", "src": j, "ops": {"n": "_size()", "keys": "uid.count()", "top": "uid.max()"}, "group_by": []})
+    out.append({"op": "order_rows", "src": {"op": "natural_join", "src": left, "b": right, "on": ["uid"], "jointype": "RIGHT"}, "columns": ["rv"], "reverse": [], "limit": None})
+    if k0 != "uid":
+        lk = {"op": "select_columns", "src": {"op": "select_rows", "src": T1, "expr": "uid >= 2"}, "columns": [k0, "uid"]}
+        rk = {"op": "project", "src": {"op": "select_rows", "src": T1, "expr": "uid <= 2"}, "ops": {"cnt": "_size()"}, "group_by": [k0]}
+        out.append({"op": "natural_join", "src": lk, "b": rk, "on": [k0], "jointype": rng.choice(["RIGHT", "FULL"])})
+    # (b)
+    ops = rng.choice([{"x": "q + 1"}, {"x": "q * 2", "y": "uid + 1"}, {"x": "(q > 1).if_else(q, uid)"}])
+    wops = {"x": rng.choice(["q.cumsum()", "_row_number()", "q.shift()"])}
+    fa = {"op": "rename_columns", "src": {"op": "select_columns", "src": {"op": "select_rows", "src": T1, "expr": "uid >= 2"}, "columns": ["uid", a1]}, "map": {"q": a1}} if a1 != "uid" else None
+    fb = {"op": "rename_columns", "src": {"op": "select_columns", "src": {"op": "select_rows", "src": T1, "expr": "uid <= 2"}, "columns": ["uid", a1]}, "map": {"q": a1}} if a1 != "uid" else None
+    tb = {"op": "rename_columns", "src": {"op": "select_columns", "src": T2, "columns": ["uid", b2]}, "map": {"q": b2}} if b2 != "uid" else None
+    ta = {"op": "rename_columns", "src": {"op": "select_columns", "src": T1, "columns": ["uid", a1]}, "map": {"q": a1}} if a1 != "uid" else None
+
+    def ext(src, o, w=False):
+        e = {"op": "extend", "src": src, "ops": dict(o)}
+        if w:
+            e.update({"partition_by": [], "order_by": ["uid"], "reverse": []})
+        return e
+    if fa is not None:
+        out.append({"op": "concat_rows", "src": ext(fa, ops), "b": ext(fb, ops), "id_column": rng.choice([None, "src"]), "a_name": "l", "b_name": "r"})
+        out.append({"op": "natural_join", "src": ext(fa, ops), "b": ext(fb, ops), "on": ["uid"], "jointype": rng.choice(["FULL", "LEFT", "RIGHT"])})
+        out.append({"op": "concat_rows", "src": ext(fa, wops, True), "b": ext(fb, wops, True), "id_column": None, "a_name": "l", "b_name": "r"})
+    if ta is not None and tb is not None:
+        out.append({"op": "concat_rows", "src": ext(ta, ops), "b": ext(tb, ops), "id_column": rng.choice([None, "src"]), "a_name": "l", "b_name": "r"})
+        out.append({"op": "natural_join", "src": ext(ta, ops), "b": ext(tb, ops), "on": ["uid"], "jointype": rng.choice(["INNER", "FULL", "RIGHT"])})
+        out.append({"op": "project", "src": {"op": "concat_rows", "src": ext(ta, wops, True), "b": ext(tb, wops, True), "id_column": "src", "a_name": "l", "b_name": "r"},
+                    "ops": {"s": "q.max()", "n": "_size()"}, "group_by": ["src"]})
+    return out
+
+
 def generate(rng, n, deep=False, share_bias=False):
     """the case stream: ~45% random pipelines over tables with few or no nulls (mostly insensitive), ~10% random pipelines over
     tables with many nulls, ~30% own shapes (merging, pruning, shared sub-pipelines, joins, limits, ties), ~15% the stream that
@@ -416,6 +465,15 @@ def generate(rng, n, deep=False, share_bias=False):
                     c.stream = "random" if r < 0.45 else "random_nulls"
                     cases.append(c)
             elif r < 0.85:
+                if share_bias and rng.random() < 0.4:
+                    tabs = gen_tables(rng, rng.choice([0.0, 0.0, 0.1, 0.3]), types=("int", "float"), empty=empty)
+                    ss = pg_path_scripts(rng, tabs)
+                    for s in rng.sample(ss, min(6, len(ss))):
+                        try:
+                            cases.append(make_case(s, tabs, "postgres_paths"))
+                        except Exception:
+                            pass
+                    continue
                 if rng.random() < (0.75 if share_bias else 0.35):
                     tabs = gen_tables(rng, rng.choice([0.0, 0.0, 0.1, 0.3]), empty=empty)
                     ss = dag_scripts(rng, tabs)
